@@ -46,14 +46,20 @@ def _guard_chain(fn, target):
   """Normalised list of enclosing if-tests (with polarity) of a node in fn."""
   chain = []
 
+  def lit(pol, t):
+    # `not c` taken  ==  `c` not taken
+    while isinstance(t, ast.UnaryOp) and isinstance(t.op, ast.Not):
+      t, pol = t.operand, ('F' if pol == 'T' else 'T')
+    return (pol, core.norm(t))
+
   def rec(stmts, acc):
     for s in stmts:
       if any(n is target for n in ast.walk(s)):
         if isinstance(s, ast.If):
           if any(n is target for b in s.body for n in ast.walk(b)):
-            return rec(s.body, acc + [('T', core.norm(s.test))])
+            return rec(s.body, acc + [lit('T', s.test)])
           if any(n is target for b in s.orelse for n in ast.walk(b)):
-            return rec(s.orelse, acc + [('F', core.norm(s.test))])
+            return rec(s.orelse, acc + [lit('F', s.test)])
           return acc
         for f in ('body', 'orelse', 'finalbody'):
           blk = getattr(s, f, None)
@@ -95,6 +101,38 @@ def _try_finally_pairs(fn):
 
   scan(fn.body)
   return out
+
+
+def _same_block_before(fn, a, b):
+  for n in ast.walk(fn):
+    for f in ('body', 'orelse', 'finalbody'):
+      blk = getattr(n, f, None)
+      if isinstance(blk, list) and any(x is a for x in blk) and any(x is b for x in blk):
+        return [i for i, x in enumerate(blk) if x is a][0] < \
+            [i for i, x in enumerate(blk) if x is b][0]
+  return False
+
+
+def _bottom_of_stored_list(m2, c):
+  """c is an element of a list literal that is stored into an attribute: either
+  directly (`stacks.x = [c]`) or through one local (`s = [c]; stacks.x = s`)."""
+  for fn in ast.walk(m2.tree):
+    if not isinstance(fn, ast.FunctionDef):
+      continue
+    lists = [a for a in core.walk_no_nested(fn) if isinstance(a, ast.Assign) and
+             isinstance(a.value, ast.List) and any(el is c for el in a.value.elts)]
+    for a in lists:
+      if isinstance(a.targets[0], ast.Attribute):
+        return True
+      if isinstance(a.targets[0], ast.Name) and len(a.targets) == 1:
+        rd = tpl.rdefs(fn)
+        for b in core.walk_no_nested(fn):
+          if isinstance(b, ast.Assign) and isinstance(b.targets[0], ast.Attribute) and \
+              isinstance(b.value, ast.Name) and b.value.id == a.targets[0].id:
+            ds = rd.reaching(b.value, b.value.id)
+            if ds and all(d is a.value for d in ds):
+              return True
+  return False
 
 
 def check(model, rep, tier):
@@ -153,11 +191,7 @@ def check(model, rep, tier):
           ok = bool(uses)
           for m2, c in uses:
             # must be an element of a list literal assigned to stacks.<attr>
-            ok = ok and any(
-                isinstance(a, ast.Assign) and isinstance(a.value, ast.List) and
-                any(el is c for el in a.value.elts) and
-                isinstance(a.targets[0], ast.Attribute)
-                for a in ast.walk(m2.tree))
+            ok = ok and _bottom_of_stored_list(m2, c)
           rep.check(ok, 'CTX-WITH', site,
                     'context object returned by %s is used other than as the '
                     'never-entered bottom of the per-thread stack' % fi.name,
@@ -453,9 +487,36 @@ def check(model, rep, tier):
                 '.'.join(core.dotted(v.func).split('.')[1:])).rstrip('.') ==
                'threading.local']
   rets = [r for r in ast.walk(accessor.node) if isinstance(r, ast.Return)]
-  ok = bool(tls_names) and bool(rets) and all(
-      isinstance(r.value, ast.Attribute) and isinstance(r.value.value, ast.Name)
-      and r.value.value.id in tls_names for r in rets)
+
+  def tls_attr(r):
+    """the returned object is <thread local>.<attr>: read from it, or a local
+    that was stored into it on the way"""
+    v = r.value
+    if isinstance(v, ast.Attribute) and isinstance(v.value, ast.Name) and \
+        v.value.id in tls_names:
+      return v.attr
+    if isinstance(v, ast.Name):
+      stores = [b for b in core.walk_no_nested(accessor.node)
+                if isinstance(b, ast.Assign) and len(b.targets) == 1 and
+                isinstance(b.targets[0], ast.Attribute) and
+                isinstance(b.targets[0].value, ast.Name) and
+                b.targets[0].value.id in tls_names and
+                isinstance(b.value, ast.Name) and b.value.id == v.id]
+      rd = tpl.rdefs(accessor.node)
+      here = rd.reaching(v, v.id)
+      # the same definition of the local reaches the store and the return, and
+      # the store dominates the return (it is in the same block, before it)
+      for b in stores:
+        if here and rd.reaching(b.value, v.id) == here and _same_block_before(
+            accessor.node, b, r):
+          return b.targets[0].attr
+      ex = tpl.expand(accessor, v, r)
+      if isinstance(ex, ast.Attribute) and isinstance(ex.value, ast.Name) and \
+          ex.value.id in tls_names:
+        return ex.attr
+    return None
+  ret_attrs = {tls_attr(r) for r in rets}
+  ok = bool(tls_names) and bool(rets) and None not in ret_attrs and len(ret_attrs) == 1
   rep.check(ok, 'CTX-TLS', '%s:returns-thread-local-attr' % accessor.site,
             'the status stack is not an attribute of a module-level '
             'threading.local(): threads would share one stack',
@@ -466,7 +527,7 @@ def check(model, rep, tier):
   # lazily created per thread: the only store to stacks.<attr> is guarded by a
   # hasattr/getattr probe and builds a fresh list with the default context
   if ok:
-    attr = rets[0].value.attr
+    attr = list(ret_attrs)[0]
     stores = [a for a in ast.walk(accessor.node) if isinstance(a, ast.Assign) and
               isinstance(a.targets[0], ast.Attribute) and
               core.dotted(a.targets[0]) == '%s.%s' % (tls_names[0], attr)]
@@ -481,8 +542,9 @@ def check(model, rep, tier):
           if h.type is not None and core.dotted(h.type) == 'AttributeError' and any(
               st in stores for b in h.body for st in ast.walk(b)):
             probes.append(h)
-    ok2 = len(stores) == 1 and isinstance(stores[0].value, ast.List) and \
-        len(stores[0].value.elts) == 1 and bool(probes)
+    stored = tpl.expand(accessor, stores[0].value, stores[0]) if len(stores) == 1 else None
+    ok2 = len(stores) == 1 and isinstance(stored, ast.List) and \
+        len(stored.elts) == 1 and bool(probes)
     rep.check(ok2, 'CTX-TLS', '%s:lazy-per-thread-default' % accessor.site,
               'per-thread stack must be created on first use in each thread '
               'as a fresh one-element list', {'stores': [core.norm(s) for s in stores]},
